@@ -331,6 +331,11 @@ func c14Region(c *Ctx, r *Report, rule string) {
 					if want {
 						problems = append(problems, fmt.Sprintf("%v is rejected although it is well-formed", fmtVals(v, keys)))
 					}
+				case res.kind == "return" && strings.HasPrefix(res.ret, "?"):
+					// the verdict returned here depends on something other than the header's fields: the header passed
+					if !want {
+						problems = append(problems, fmt.Sprintf("%v passes the validation although it is malformed", fmtVals(v, keys)))
+					}
 				case res.kind == "return":
 					problems = append(problems, fmt.Sprintf("%v answers (%s) inside the validation", fmtVals(v, keys), res.ret))
 				default:
